@@ -305,6 +305,44 @@ def execField (B : Build) (fld op : String) (args : List String) : String :=
         | none => "bad-op"
     | "legendre", [a] => match fe a with
         | some x => toString (legendre F.m (toLimbs 64 ((F.m - 1) / 2) F.nl) x) | none => "bad-op"
+    | "const", [name] =>
+      let limbs (l : Lit) := String.intercalate "," (l.nats.map toString)
+      (match fld, name with
+      | _, "ZERO" => out 0
+      | _, "ONE" => out (1 % F.m)
+      | "fq", "MULTIPLICATIVE_GENERATOR" => out (fqLit Gen.fields_fq.Fq.MULTIPLICATIVE_GENERATOR)
+      | "fr", "MULTIPLICATIVE_GENERATOR" => out (frLit Gen.fields_fr.Fr.MULTIPLICATIVE_GENERATOR)
+      | "fp", "MULTIPLICATIVE_GENERATOR" => out (fpLit Gen.fields_fp.Fp.MULTIPLICATIVE_GENERATOR)
+      | "fq", "TWO_ADIC_ROOT_OF_UNITY" => out (fqLit Gen.fields_fq.Fq.TWO_ADIC_ROOT_OF_UNITY)
+      | "fr", "TWO_ADIC_ROOT_OF_UNITY" => out (frLit Gen.fields_fr.Fr.TWO_ADIC_ROOT_OF_UNITY)
+      | "fp", "TWO_ADIC_ROOT_OF_UNITY" => out (fpLit Gen.fields_fp.Fp.TWO_ADIC_ROOT_OF_UNITY)
+      | "fq", "FIELD_SIZE_POWER_OF_TWO" => out (fqLit Gen.fields_fq.Fq.FIELD_SIZE_POWER_OF_TWO)
+      | "fr", "FIELD_SIZE_POWER_OF_TWO" => out (frLit Gen.fields_fr.Fr.FIELD_SIZE_POWER_OF_TWO)
+      | "fp", "FIELD_SIZE_POWER_OF_TWO" => out (fpLit Gen.fields_fp.Fp.FIELD_SIZE_POWER_OF_TWO)
+      | "fq", "QUADRATIC_NON_RESIDUE_TO_TRACE" => out (fqLit Gen.fields_fq.Fq.QUADRATIC_NON_RESIDUE_TO_TRACE)
+      | "fp", "QUADRATIC_NON_RESIDUE_TO_TRACE" => out (fpLit Gen.fields_fp.Fp.QUADRATIC_NON_RESIDUE_TO_TRACE)
+      | "fq", "ZETA" => out B.zeta
+      | "fp", "MINUS_ONE" => out (if B.name == "min" then fpLit Gen.fields_fp_u32_wrapper.Fp.MINUS_ONE else fpLit Gen.fields_fp_u64_wrapper.Fp.MINUS_ONE)
+      | "fp", "QUADRATIC_NON_RESIDUE" => out (if B.name == "min" then fpLit Gen.fields_fp_u32_wrapper.Fp.QUADRATIC_NON_RESIDUE else fpLit Gen.fields_fp_u64_wrapper.Fp.QUADRATIC_NON_RESIDUE)
+      | "fq", "MODULUS_LIMBS" => limbs Gen.fields_fq.Fq.MODULUS_LIMBS
+      | "fr", "MODULUS_LIMBS" => limbs Gen.fields_fr.Fr.MODULUS_LIMBS
+      | "fp", "MODULUS_LIMBS" => limbs Gen.fields_fp.Fp.MODULUS_LIMBS
+      | "fq", "MODULUS_MINUS_ONE_DIV_TWO_LIMBS" => limbs Gen.fields_fq.Fq.MODULUS_MINUS_ONE_DIV_TWO_LIMBS
+      | "fr", "MODULUS_MINUS_ONE_DIV_TWO_LIMBS" => limbs Gen.fields_fr.Fr.MODULUS_MINUS_ONE_DIV_TWO_LIMBS
+      | "fp", "MODULUS_MINUS_ONE_DIV_TWO_LIMBS" => limbs Gen.fields_fp.Fp.MODULUS_MINUS_ONE_DIV_TWO_LIMBS
+      | "fq", "TRACE_LIMBS" => limbs Gen.fields_fq.Fq.TRACE_LIMBS
+      | "fr", "TRACE_LIMBS" => limbs Gen.fields_fr.Fr.TRACE_LIMBS
+      | "fp", "TRACE_LIMBS" => limbs Gen.fields_fp.Fp.TRACE_LIMBS
+      | "fq", "TRACE_MINUS_ONE_DIV_TWO_LIMBS" => limbs Gen.fields_fq.Fq.TRACE_MINUS_ONE_DIV_TWO_LIMBS
+      | "fr", "TRACE_MINUS_ONE_DIV_TWO_LIMBS" => limbs Gen.fields_fr.Fr.TRACE_MINUS_ONE_DIV_TWO_LIMBS
+      | "fp", "TRACE_MINUS_ONE_DIV_TWO_LIMBS" => limbs Gen.fields_fp.Fp.TRACE_MINUS_ONE_DIV_TWO_LIMBS
+      | "fq", "MODULUS_BIT_SIZE" => toString Gen.fields_fq.Fq.MODULUS_BIT_SIZE.natVal
+      | "fr", "MODULUS_BIT_SIZE" => toString Gen.fields_fr.Fr.MODULUS_BIT_SIZE.natVal
+      | "fp", "MODULUS_BIT_SIZE" => toString Gen.fields_fp.Fp.MODULUS_BIT_SIZE.natVal
+      | "fq", "TWO_ADICITY" => toString Gen.fields_fq.Fq.TWO_ADICITY.natVal
+      | "fr", "TWO_ADICITY" => toString Gen.fields_fr.Fr.TWO_ADICITY.natVal
+      | "fp", "TWO_ADICITY" => toString Gen.fields_fp.Fp.TWO_ADICITY.natVal
+      | _, _ => "unsupported")
     | "srz", [a, b] => match fe a, fe b with
         | some x, some y => if fld != "fq" then "bad-op" else
           (match B.sr x y with
